@@ -541,6 +541,35 @@ func checkDiffCost(cfg *world.Config, o, n *version) []explore.Finding {
 	measure("DiffLinks", func() error {
 		return n.t.DiffLinks(ctx, o.t, func(r bool, l interface{}) (bool, error) { return true, nil })
 	})
+	// the old version opened through another handle on the same nodes (a mirror: other NodeURLPrefix, same
+	// content-addressed names): what the two versions share is still shared
+	if o.w == n.w && o.root != nil {
+		alt := env.NewStore("mem://mirror/")
+		for _, name := range o.w.Store.Names() {
+			b, _ := o.w.Store.Has(name)
+			alt.M[name] = b
+		}
+		if ot, err := o.root.LoadMast(ctx, o.w.RemoteConfig(alt, false)); err == nil {
+			o.w.Store.ResetLog()
+			alt.ResetLog()
+			r := guardRes(func() error {
+				return n.t.DiffIter(ctx, ot, func(a, r bool, k, av, rv interface{}) (bool, error) { return true, nil })
+			})
+			if r.Err == nil && r.Panic == nil {
+				names := map[string]bool{}
+				for _, c := range append(o.w.Store.Calls("load"), alt.Calls("load")...) {
+					names[c.Name] = true
+				}
+				bound := 2*D + 2
+				if o.link == n.link {
+					bound = 0
+				}
+				if len(names) > bound {
+					out = append(out, explore.Finding{Sig: fmt.Sprintf("C15|DiffIter|old-version-through-a-mirror-store|%s|reads-exceed-2D+2", cls), What: "DiffIter against the old version opened through another store handle holding the same nodes read more distinct nodes than the bound", Detail: fmt.Sprintf("old %v new %v: D=%d bound=%d distinct loads=%d", o.c, n.c, D, bound, len(names))})
+				}
+			}
+		}
+	}
 	return out
 }
 
